@@ -1,6 +1,6 @@
 //! C10 — DogStatsD aggregation conserves counts across flushes under any interleaving.
 use crate::dsdparse::{self, Msg};
-use crate::rt::{self, mix, Args, Ctx, Policy, Report, Rng, Rule, J};
+use crate::rt::{self, fnv, mix, Args, Ctx, Policy, Report, Rng, Rule, J};
 use metrics::{Key, Label, Level, Metadata, Recorder};
 use metrics_exporter_dogstatsd::verif::Driver;
 use metrics_exporter_dogstatsd::{AggregationMode, DogStatsDBuilder};
@@ -138,11 +138,79 @@ fn mixed_mode(a: &Args, rep: &mut Report, r: &mut Rng) {
     }
 }
 
+/// Two counters sharing a name and differing in labels, with differing activity: each key on its own sends its deltas,
+/// one zero when it goes quiet, and then nothing until it changes again (sequential, no races).
+fn same_name_counters(a: &Args, rep: &mut Report, r: &mut Rng) {
+    let trials = a.budget(200, 20_000);
+    for _ in 0..trials {
+        let lp = r.chance(1, 2);
+        let mut driver = Driver::new(r.chance(1, 2), false, 16, true, vec![], None, 8192, lp);
+        let rec = driver.recorder();
+        let ca = rec.register_counter(&Key::from_parts("twin", vec![Label::new("shard", "a")]), &MD);
+        let cb = rec.register_counter(&Key::from_parts("twin", vec![Label::new("shard", "b")]), &MD);
+        // per key: increments made since the last flush, and the model of what must be sent
+        let mut pending = [0u64; 2];
+        let mut idle_sent = [false; 2]; // a registered counter that never changed is reported as zero once, like one that stopped changing
+        let mut trace: Vec<String> = Vec::new();
+        let mut bad: Option<String> = None;
+        for step in 0..(4 + r.usize(8)) {
+            for (i, c) in [&ca, &cb].iter().enumerate() {
+                if r.chance(1, 2) {
+                    let k = 1 + r.below(9);
+                    c.increment(k);
+                    pending[i] += k;
+                    trace.push(format!("step {}: twin{{shard={}}} += {}", step, ["a", "b"][i], k));
+                }
+            }
+            let payloads = match rt::catch(|| driver.flush()) {
+                Ok(p) => p,
+                Err(m) => {
+                    bad = Some(format!("flush panicked: {}", m));
+                    break;
+                }
+            };
+            let msgs = match decode(&payloads, lp) {
+                Ok(m) => m,
+                Err(e) => {
+                    bad = Some(format!("undecodable flush output: {}", e));
+                    break;
+                }
+            };
+            for i in 0..2 {
+                let tag = ["a", "b"][i];
+                let got: Vec<u64> = msgs.iter().filter(|m| m.name == "twin" && m.tags.iter().any(|(k, v)| k == "shard" && v.as_deref() == Some(tag))).filter_map(|m| m.values.first().and_then(|x| x.parse().ok())).collect();
+                let expect: Vec<u64> = if pending[i] > 0 {
+                    idle_sent[i] = false;
+                    vec![pending[i]]
+                } else if !idle_sent[i] {
+                    idle_sent[i] = true;
+                    vec![0]
+                } else {
+                    vec![]
+                };
+                trace.push(format!("step {}: flush sent {:?} for shard={} (expected {:?})", step, got, tag, expect));
+                if got != expect && bad.is_none() {
+                    bad = Some(format!("shard={}: flush sent {:?}, expected {:?}", tag, got, expect));
+                }
+                pending[i] = 0;
+            }
+            if bad.is_some() {
+                break;
+            }
+        }
+        rep.case(mix(fnv(format!("{:?}", trace).as_bytes()), lp as u64), true);
+        if let Some(b) = bad {
+            rep.violation("C10:idle-zero-rule:same-name-different-labels", jo! {"what" => "two counters sharing a name but not their labels: each must send its own deltas, exactly one zero when it stops changing, then nothing until it changes again", "detail" => b, "history" => J::A(trace.iter().rev().take(16).rev().map(|t| J::s(t.clone())).collect())});
+        }
+    }
+}
+
 fn run_flush(a: &Args) -> Report {
     let mut rep = Report::new("C10", &a.leg, a.seed);
     rt::quiet_panics();
     let mut r = Rng::new(a.shard_seed());
     mixed_mode(a, &mut rep, &mut r);
+    same_name_counters(a, &mut rep, &mut r);
     let trials = a.budget(2500, 250_000);
     let mut sigs = HashSet::new();
     let mut wins: HashMap<String, u64> = HashMap::new();
